@@ -603,8 +603,20 @@ func (vc *VC) specCall(env *SpecEnv, e *SCall) Val {
 				ptr := strings.HasPrefix(ts, "*")
 				ts = strings.TrimPrefix(ts, "*")
 				if i := strings.LastIndex(ts, "."); i > 0 {
+					var tp *types.Package
 					if pk := vc.prog.Pkgs[ts[:i]]; pk != nil {
-						if o := pk.Types.Scope().Lookup(ts[i+1:]); o != nil {
+						tp = pk.Types
+					} else {
+						// a dependency of a loaded package (export data)
+						for _, pk := range vc.prog.Pkgs {
+							if imp := pk.Imports[ts[:i]]; imp != nil && imp.Types != nil {
+								tp = imp.Types
+								break
+							}
+						}
+					}
+					if tp != nil {
+						if o := tp.Scope().Lookup(ts[i+1:]); o != nil {
 							var t types.Type = o.Type()
 							if ptr {
 								t = types.NewPointer(t)
